@@ -19,10 +19,12 @@ class Cfg:
     def __init__(self, **kw):
         self.max_bits = 10
         self.mul_max_w = 4
+        self.p_matrix = 0.2
         self.max_args = 3
         self.depth = 3
         self.stmts = 3
         self.p_hostile = 0.08
+        self.p_types = (0.3, 0.75, 0.87)  # cumulative: bool, int, tuple; rest list/matrix
         self.widths = INT_W
         self.allow = {"mul", "pow", "mod", "shift", "ifexp", "tuple", "list", "if", "for", "multi", "aug", "builtins", "varindex", "bitindex", "cast", "cmp_mixed", "sub", "matrix"}
         self.ret_kinds = ["bool", "int", "int", "tuple"]
@@ -218,6 +220,12 @@ class PG:
             ls = self.int_lists()
             idx = [(n, w) for n, w in self.int_atoms() if "[" not in n and (1 << w) >= 2]
             idx = [(n, w) for n, w in idx if self.is_int(self.env.get(n, ""))]
+            mats = [(n, t) for n, t in self.env.items() if isinstance(t, list) and t and all(isinstance(x, list) and x == t[0] for x in t) and all(self.is_int(y) and y == t[0][0] for y in t[0])]
+            if mats and len(idx) >= 1 and rng.random() < 0.5:
+                n, t = rng.choice(mats)
+                (i, _), (j, _) = rng.choice(idx), rng.choice(idx)
+                self.feat.add("varindex_matrix")
+                return f"{n}[{i}][{j}]", self.w_of(t[0][0])
             if ls and idx:
                 n, t = rng.choice(ls)
                 i, wi = rng.choice(idx)
@@ -309,19 +317,20 @@ class PG:
     def rand_type(self, budget, top=True):
         rng = self.rng
         r = rng.random()
-        if r < 0.3 or budget < 2:
+        pb, pi, pt = self.cfg.p_types
+        if r < pb or budget < 2:
             return "bool"
-        if r < 0.75 or not top or budget < 4:
+        if r < pi or not top or budget < 4:
             ws = [w for w in self.cfg.widths if w <= budget]
             return f"Qint{rng.choice(ws)}" if ws else "bool"
-        if r < 0.87 and self.allow("tuple"):
+        if r < pt and self.allow("tuple"):
             k = rng.randint(2, 3)
             out = []
             for _ in range(k):
                 out.append(self.rand_type(max(1, budget // k), top=False))
             return out
         if self.allow("list"):
-            if rng.random() < 0.2 and self.allow("matrix") and budget >= 8:
+            if rng.random() < self.cfg.p_matrix and self.allow("matrix") and budget >= 4:
                 e = rng.choice(["bool", "Qint2"])
                 n, m = rng.choice([(2, 2), (2, 3), (3, 2)])
                 if codec.size(e) * n * m <= budget:
@@ -353,9 +362,51 @@ class PG:
             kinds += ["multi"]
         if self.allow("varindex") and ivars and len(self.constlists) < 1:
             kinds += ["constlist"]
+        mats = [(n, t) for n, t in self.env.items() if isinstance(t, list) and t and all(isinstance(x, list) and x == t[0] for x in t) and all(y == t[0][0] and not isinstance(y, list) for y in t[0])]
+        if self.allow("for") and (self.int_lists() or self.bool_lists()):
+            kinds += ["for_len", "for_len"]
+        if self.allow("for") and mats:
+            kinds += ["for_matrix", "for_matrix"]
         k = rng.choice(kinds)
         d = self.cfg.depth - 1
-        if k == "constlist":
+        if k == "for_len":
+            ils, bls = self.int_lists(), self.bool_lists()
+            ln, lt = rng.choice(ils + bls)
+            acc = self.fresh()
+            if lt[0] == "bool":
+                body.append(f"{ind}{acc} = {rng.choice(['True', 'False'])}")
+                body.append(f"{ind}for i in range(len({ln})):")
+                body.append(f"{ind}    {acc} = ({acc} {rng.choice(['and', 'or', '^'])} {ln}[i])")
+                self.env[acc] = "bool"
+            else:
+                body.append(f"{ind}{acc} = 0")
+                body.append(f"{ind}for i in range(len({ln})):")
+                body.append(f"{ind}    {acc} = ({acc} {rng.choice(['+', '^', '|'])} {ln}[i])")
+                self.env[acc] = f"Qint{max(2, self.w_of(lt[0]))}"
+            self.feat.add("for_len")
+        elif k == "for_matrix":
+            mn, mt = rng.choice(mats)
+            acc = self.fresh()
+            rows, cols = len(mt), len(mt[0])
+            el = mt[0][0]
+            form = rng.choice(["ij", "rows"])
+            if el == "bool":
+                body.append(f"{ind}{acc} = False")
+                op = rng.choice(["^", "or"])
+            else:
+                body.append(f"{ind}{acc} = 0")
+                op = rng.choice(["+", "^"])
+            if form == "ij":
+                body.append(f"{ind}for i in range({rows}):")
+                body.append(f"{ind}    for j in range({cols}):")
+                body.append(f"{ind}        {acc} = ({acc} {op} {mn}[i][j])")
+            else:
+                body.append(f"{ind}for r in {mn}:")
+                body.append(f"{ind}    for x in r:")
+                body.append(f"{ind}        {acc} = ({acc} {op} x)")
+            self.env[acc] = "bool" if el == "bool" else f"Qint{max(2, self.w_of(el))}"
+            self.feat.add(f"for_matrix:{form}")
+        elif k == "constlist":
             n = self.fresh()
             elts = [rng.randint(0, rng.choice([3, 15])) for _ in range(rng.randint(2, 4))]
             body.append(f"{ind}{n} = [{', '.join(map(str, elts))}]")
@@ -540,6 +591,12 @@ def core_programs(rng, n, cfg=None):
     pg = PG(rng, cfg)
     for _ in range(n):
         yield pg.program()
+
+
+def collections_cfg(**kw):
+    d = dict(max_bits=10, max_args=3, depth=2, stmts=3, p_types=(0.12, 0.3, 0.45), p_matrix=0.4, mul_max_w=2)
+    d.update(kw)
+    return Cfg(**d)
 
 
 def small_cfg(**kw):
